@@ -1,7 +1,7 @@
 #!/bin/sh
 export VK_NO_EVIDENCE=1
 # usage: sh vk/seedtest.sh <property> [tier]   -- runs the property's check against every seeded change for it
-PROP="$1"; TIER="${2:-quick}"
+PROP="$1"; TIER="${2:-quick}"; PAT="${3:-}"
 HERE="$(cd "$(dirname "$0")/.." && pwd)"; cd "$HERE"
 for d in seeded/$PROP-* seeded/own-$PROP-*; do
   [ -f "$HERE/$d/patch.diff" ] || continue
